@@ -30,7 +30,6 @@ type worker struct {
 	cpuStart time.Duration
 	lastCPU  time.Duration
 	lastMove time.Time
-	winStart time.Time
 	ended    map[int]bool
 }
 
@@ -198,7 +197,6 @@ func runWorker(spec *Spec, ph *Phase, tier string, seed uint64, from, to int, jo
 		w.cpuStart = cpuNow()
 		w.lastCPU = w.cpuStart
 		w.lastMove = time.Now()
-		w.winStart = w.lastMove
 		w.mu.Unlock()
 		res := runCase(spec, ph, tier, seed, i, race, false, w)
 		w.mu.Lock()
